@@ -84,6 +84,7 @@ def extra_entries():
     add('Squeeze2', lambda: T.SqueezeTransform(2), [1, 4, 2], extra={'inv_shape': [4, 2, 1]})
     add('Squeeze3', lambda: T.SqueezeTransform(3), [2, 3, 6], extra={'inv_shape': [18, 1, 2]})
     add('GLU', lambda: T.GatedLinearUnit(), [3], ctx=1)
+    add('GLU/per-feature', lambda: T.GatedLinearUnit(), [3], ctx=3)       # one gate per feature
     add('Composite', lambda: T.CompositeTransform([T.LULinear(3, identity_init=False), T.Tanh(), T.ReversePermutation(3),
                                                    T.PointwiseAffineTransform(0.5, 2.0)]), [3])
     # usage patterns of the wrappers: parts given as a one-shot iterable; one instance listed more than once (weight tying)
@@ -152,7 +153,7 @@ def all_entries(level):
     return R.entries(level) + extra_entries()
 
 
-MODES = ('grad', 'no_grad', 'noncontiguous', 'reloaded')
+MODES = ('grad', 'no_grad', 'noncontiguous', 'reloaded', 'after_decoy')
 
 
 def _mode_setup(mode, e, t, x, gen):
@@ -166,11 +167,29 @@ def _mode_setup(mode, e, t, x, gen):
         t2.load_state_dict(t.state_dict())
         t2.train(t.training)
         return t2, x
+    if mode == 'after_decoy':
+        # another live instance of the same configuration, with other parameter values, is USED (both directions, evaluation mode)
+        # before the tested one: state shared between instances (class-level caches, module-level memos keyed by shape) shows here
+        from .tcorr import build
+        d = build(e, gen, x.dtype, 'fresh')
+        d.train(t.training)
+        c = R.make_context(e, x.shape[0], gen, x.dtype)
+        k, yd, _ = R.impl_call(d, x, c, False)
+        _DECOY_N[0] += 1
+        if k == 'ok' and _DECOY_N[0] % 2:
+            R.impl_call(d, yd, c, True)      # every other time the decoy is used in one direction only
+        _DECOYS.append(d)
+        del _DECOYS[:-5]
+        return t, x
     if mode == 'noncontiguous':
         from .tcorr import noncontiguous
         xn = noncontiguous(x)
         return (t, xn) if xn is not None else (None, None)
     return t, x
+
+
+_DECOYS = []
+_DECOY_N = [0]
 
 
 def _call(mode, t, x, c, inverse):
@@ -305,6 +324,48 @@ def roundtrip_search(ctx, budget_s=300, entries=None, count=False):
                 ctx.notes.append('roundtrip oracle on %s raised %r' % (e.name, ex))
         if len(ctx.failing) >= 8 or ctx.elapsed() > budget_s:
             break
+    if entries is None:
+        knot_consistency(ctx, gen, count)
+
+
+def knot_consistency(ctx, gen, count=False):
+    """the linear spline is the one family whose derivative JUMPS at a knot: at an input exactly on an interior knot the two directions
+    must use the same side.  Dyadic knots (K a power of two, unit box), so that forward(knot) is
+    exactly the cdf knot in both precisions; the claim checked is the property's own: inverse log-det at y = -(forward log-det at
+    inverse(y)) wherever inverse(y) is bit for bit the knot, and inverse(forward(x)) = x."""
+    for dtype in (torch.float64, torch.float32):
+        for K in (2, 4, 8):
+            for tails, B in ((False, None),):       # a rescaled box rounds y before the bin search: the side is rounding there
+                for regime in ('normal', 'wide'):
+                    n = K - 1
+                    params = S.make_params('lin', n, K, tails, regime, dtype, gen)
+                    lo, hi = (-B, B) if tails else (0.0, 1.0)
+                    x = torch.tensor([lo + (hi - lo) * k / K for k in range(1, K)], dtype=dtype)
+                    box = None if tails else (0.0, 1.0, 0.0, 1.0)
+                    k1, y, ld = S.impl_call('lin', x, params, False, tails, box, B)
+                    if k1 != 'ok':
+                        continue
+                    k2, xi, ldi = S.impl_call('lin', y, params, True, tails, box, B)
+                    if k2 != 'ok':
+                        continue
+                    k3, y2, ld2 = S.impl_call('lin', xi, params, False, tails, box, B)
+                    if count:
+                        ctx.case(key=('knot-consistency', K, tails, B, regime, str(dtype)), branch='direct-roundtrip/knot', nontrivial=True, n=n)
+                    if k3 != 'ok':
+                        continue
+                    tol = (1e-4 if dtype == torch.float32 else 1e-9)
+                    case = {'family': 'lin', 'K': K, 'tails': tails, 'tail_bound': B, 'dtype': str(dtype), 'x': x.tolist(),
+                            'params': [p.tolist() for p in params], 'ld_inverse': ldi.tolist(), 'ld_forward_at_inverse': ld2.tolist()}
+                    # only where inverse(y) IS the knot, bit for bit: one ulp to its left the forward derivative legitimately is the other
+                    # slope (the map has no derivative at a knot; which side a perturbed point falls on is rounding, not a defect)
+                    exact = (xi == x)
+                    if bool((((ld2 + ldi).abs() > tol * (1 + ld2.abs())) & exact).any()):
+                        ctx.fail('linear spline at an interior knot: the inverse log-abs-det is not the negated forward one at inverse(y) (%.3g): the two '
+                                 'directions use different sides of the knot' % (ld2 + ldi).abs().max().item(), case,
+                                 match={'class': 'linear_spline', 'symptom': 'knot-side'})
+                    elif bool(((xi - x).abs() > 64 * tol * (1 + x.abs()) * torch.exp(ld.abs().clamp(max=30))).any()):
+                        ctx.fail('linear spline at an interior knot: inverse(forward(x)) differs from x by %.3g' % (xi - x).abs().max().item(), case,
+                                 match={'class': 'linear_spline', 'symptom': 'knot-roundtrip'})
 
 
 def _declared(e):
